@@ -101,6 +101,9 @@ def generate(rng, tier):
             "scripts": worlds.default_scripts(rng)[:3],
             "meta": {"family": fam, "cell_family": cfam, "tight_axes": [], "K": geom.amplification_K(P, None), "D": D}}
     replcheck.add_metadata(rng, spec)
+    if rng.random() < 0.5:
+        # typed terms all over the structure: removing an atom twice shows in the re-indexing of the terms that survive
+        replcheck.add_random_terms(rng, spec)
     spec["replace"] = replcheck.gen_replacement(rng, els, P, mode=rng.choice(["smaller", "smaller", "equal_subst", "larger", "identity", "empty", "disjoint", "equal", "relaxed", "relaxed"]))
     spec["fraction"] = rng.choice([1.0, 1.0, 1.0, 0.5, 0.75])
     spec["replace_all"] = rng.random() < 0.2
@@ -129,6 +132,16 @@ def execute(spec, ctx):
         if run.exc is None and len(run.selected) != run.reported:
             ctx.count("selection_not_observed")
             continue
+        if is_overlap_err and not run.sample_observed:
+            # refused before any selection was drawn.  The selection stream of the seam is untouched, so the selection the
+            # library WOULD have drawn for these matches is known: the refusal is judged against it
+            M = len(run.found[0])
+            fk = run.kw["replace_fraction"] * M
+            if abs(fk - math.floor(fk) - 0.5) < 1e-9 or seams.global_rng_touched(ctx):
+                ctx.count("refused_before_selection_not_judged")
+                continue
+            run.selected = [int(i) for i in ctx.rng.sample(list(range(M)), int(round(fk)))]
+            ctx.count("refused_before_selection_judged_against_pending_draw")
         sel = [run.found[0][i] for i in run.selected]
         D = [set(i for a, i in enumerate(m) if not (a in retained_pat and nrep > 0)) for m in sel]
         cnt = collections.Counter(i for d in D for i in d)
@@ -170,6 +183,7 @@ def execute(spec, ctx):
         rel = list(res.elements)
         stel = list(structure.elements)
         used = set()
+        new_of = {}
         for i in range(len(pos0)):
             if i in expect_removed:
                 continue
@@ -178,10 +192,48 @@ def execute(spec, ctx):
             if not cands:
                 raise Violation("c07:survivor-missing", "atom %d (%s) is removed by no selected match but is missing from the result" % (i, stel[i]), site="replace")
             used.add(cands[0])
+            new_of[i] = cands[0]
+        _check_surviving_terms(ctx, spec, structure, res, new_of)
         only = [r for r in range(nrep) if r not in smap]
         if len(res) != len(pos0) - len(expect_removed) + len(sel) * len(only):
             raise Violation("c07:atom-count", "result has %d atoms, expected %d - %d + %d*%d" % (len(res), len(pos0), len(expect_removed), len(sel), len(only)), site="replace")
         ctx.count("results_accounted")
+
+
+KINDS = (("bonds", "bond_types", "bond_type_coeffs"), ("angles", "angle_types", "angle_type_coeffs"),
+         ("dihedrals", "dihedral_types", "dihedral_type_coeffs"), ("impropers", "improper_types", "improper_type_coeffs"))
+
+
+def _check_surviving_terms(ctx, spec, structure, res, new_of):
+    """The replacement patterns of these worlds carry no terms: the result's terms are exactly the structure's terms whose atoms
+    all survive, on the same physical atoms, with the coefficient text (or, without tables, the type id) they had."""
+    if not any(spec.get(k[0]) for k in KINDS):
+        return
+    def canon(t):
+        t = tuple(int(x) for x in t)
+        return min(t, t[::-1])
+    for key, tkey, ckey in KINDS:
+        table0 = [str(x) for x in np.asarray(getattr(structure, ckey, [])).tolist()]
+        table1 = [str(x) for x in np.asarray(getattr(res, ckey, [])).tolist()]
+        want = collections.Counter()
+        for t, ty in zip(np.asarray(getattr(structure, key)).tolist(), np.asarray(getattr(structure, tkey)).tolist()):
+            if all(i in new_of for i in t):
+                want[(canon([new_of[i] for i in t]), table0[ty] if table0 else ty)] += 1
+        got = collections.Counter()
+        terms1, types1 = np.asarray(getattr(res, key)).tolist(), np.asarray(getattr(res, tkey)).tolist()
+        if len(terms1) != len(types1):
+            raise Violation("c07:%s-types-length" % key, "%d %s but %d types" % (len(terms1), key, len(types1)), site="replace")
+        for t, ty in zip(terms1, types1):
+            if any(not 0 <= int(i) < len(res) for i in t):
+                raise Violation("c07:%s-dangling" % key, "%s entry %s refers to a non-existing atom (result has %d atoms)" % (key, t, len(res)), site="replace")
+            if table1 and not 0 <= ty < len(table1):
+                raise Violation("c07:%s-type-without-entry" % key, "%s type %d has no coefficient entry" % (key, ty), site="replace")
+            got[(canon(t), table1[ty] if table1 else ty)] += 1
+        if got != want:
+            lost, extra = list((want - got).items())[:2], list((got - want).items())[:2]
+            raise Violation("c07:surviving-%s-changed" % key, "terms between atoms that no selected match removes must survive on the same atoms: missing %s, unexpected %s"
+                            % (lost, extra), site="replace")
+    ctx.count("surviving_terms_checked")
 
 
 def shrink(spec):
